@@ -286,7 +286,7 @@ pub fn check(tier: Tier, threads: usize) -> CheckOutcome {
                     found.entry(sig.clone()).or_insert(Violation {
                         signature: sig.clone(),
                         what: what.clone(),
-                        replay: json!({"engine": "c13", "case": c.name()}),
+                        replay: json!({"engine": "c13", "case": c.name(), "limit": c.limit, "body_len": c.body_len, "opcode": c.opcode, "position": c.position, "b": c.b, "pregrown": c.pregrown}),
                     });
                 }
             }
@@ -317,4 +317,21 @@ pub fn check(tier: Tier, threads: usize) -> CheckOutcome {
         wall_s: t0.elapsed().as_secs_f64(),
         machinery_error: mach,
     }
+}
+
+pub fn replay(v: &serde_json::Value) -> Result<Option<String>, String> {
+    let c = Case {
+        limit: v["limit"].as_u64().unwrap_or(1024) as u32,
+        body_len: v["body_len"].as_u64().unwrap_or(0) as u32,
+        opcode: v["opcode"].as_u64().unwrap_or(0) as u8,
+        position: v["position"].as_u64().unwrap_or(0) as u8,
+        b: v["b"].as_u64().unwrap_or(0) as u32,
+        pregrown: v["pregrown"].as_bool().unwrap_or(false),
+    };
+    let a = run_case(&c)?.viol;
+    let b = run_case(&c)?.viol;
+    if a != b {
+        return Err("two replays of the same scenario differ".into());
+    }
+    Ok(a.map(|(s, w)| format!("{}: {}", s, w)))
 }
